@@ -9,6 +9,11 @@ Ties (every run):
   JniInterface` literals with their class context) and `JNIEXPORT` prototypes extracted from the generated JNI
   files, and the classes / members of the generated Java (`javac` + `javap -s -p`; source-level extraction with
   descriptors from `Lang/JavaDesc` when javac fails) against the model's `jniLookups` / `jniExports` / `javaMembers`.
+Streams: `gen` (random programs; every second one with identifiers of all character-class shapes and inline function types over
+user types), `anon` (interfaces whose methods take inline function types over user types with such identifiers: the class name of an
+anonymous function is computed from the spelling of its signature by the Java and by the JNI generator), `hist` (ONE `API` object,
+2-3 successive configure → parse → generate rounds with other packages / support-types packages / identifier styles and programs
+with `async` methods; each round's glue is checked against that round's javap output), corpus.
 Specification on the implementation's observations (`c07.spec`): every looked-up (class, member, descriptor)
 exists in the Java classes (superclasses searched, static-ness respected); every `native` method has exactly one
 export with the mangled name and the C types of its Java signature; no orphan `Java_…` export.
@@ -43,6 +48,10 @@ THEOREMS = [
     "Pydjinni.Gen.natives_exported_once",
     "Pydjinni.Gen.natives_exported_exactly_once",
     "Pydjinni.Gen.c_types_correspond",
+    "Pydjinni.Gen.support_lookups_resolve",
+    "Pydjinni.Gen.support_exports_are_natives",
+    "Pydjinni.Gen.history_free",
+    "Pydjinni.Gen.history_rounds_agree",
 ]
 LEVEL = "proof"
 TRUSTED = (
@@ -182,31 +191,70 @@ def jdk_classes() -> list[dict]:
 # worker: one program
 # --------------------------------------------------------------------------------------------------------
 
-def _worker(args):
-    kind, seed, pi, base, payload = args
-    base = Path(base)
-    if kind == "gen":
-        r = random.Random(f"{seed}/c07/{pi}")
-        if pi % 3 == 0:
-            cfg = gen_api.default_like_config(base / "out")
-        else:
-            cfg = gen_api.rand_config(r, base / "out", compile_safe=True)
-            g = cfg["generate"]
-            if pi % 3 == 1:
-                # inside the configuration domain: the JNI generator's class / method styles are those of the Java generator
-                g["jni"]["identifier"]["class_name"] = g["java"]["identifier"]["type"]
-                g["jni"]["identifier"]["method"] = g["java"]["identifier"]["method"]
-        decls = gen_api.ProgGen(r, java_compiles=True, base_records=False).program()
-        text = gen_api.render(decls)
-    else:
-        cfg = payload["config"]
-        for k in cfg["generate"]:
-            cfg["generate"][k]["out"] = str(base / "out" / k)
-        cfg = {"generate": cfg["generate"]}
-        text = payload["idl"]
-    res = {"text": text, "cfg": cfg, "stats": [], "pi": pi, "kind": kind}
+JAVA_PACKAGES = ['com.ex.lib', 'a.bb.c_d.e1', 'org.other.app', 'io.x1.y_2z.w']
+SUPPORT_PACKAGES = [None, None, 'support', 'internal.sup_types']
+
+
+def gen_config(r: random.Random, out: Path, klass: int) -> dict:
+    """klass 0: default identifier styles; 1: random configuration inside the configuration domain of the theorems (the JNI
+    generator's class / method styles are those of the Java generator); 2: any random configuration"""
+    if klass == 0:
+        return gen_api.default_like_config(out)
+    cfg = gen_api.rand_config(r, out, compile_safe=True)
+    g = cfg["generate"]
+    if klass == 1:
+        g["jni"]["identifier"]["class_name"] = g["java"]["identifier"]["type"]
+        g["jni"]["identifier"]["method"] = g["java"]["identifier"]["method"]
+    return cfg
+
+
+def with_async(decls: list[dict], r: random.Random) -> list[dict]:
+    """make sure the program has an `async` method on an interface implemented in C++ (NativeRunnable) and on one implemented in
+    Java (NativeCompletion): the support classes and their glue are part of every round of a history"""
+    decls = list(decls)
+    taken = {d['name'] for d in decls}
+    for flags, stem in (('+cpp', 'aw_native'), ('-cpp', 'aw_host')):
+        targets_ok = (lambda f: f in ('+cpp', '')) if flags == '+cpp' else (lambda f: f in ('-cpp', ''))
+        if any(d['kind'] == 'interface' and targets_ok(d.get('flags', '')) and any(m.get('async') for m in d['methods']) for d in decls):
+            continue
+        name = next(n for n in [stem] + [f"{stem}{i}" for i in range(2, 9)] if n not in taken)
+        ms = [{'name': mn, 'params': [(pn, gen_api.T(r.choice(gen_api.PRIMS), opt=r.random() < 0.3)) for pn in r.sample(gen_api.MEMBER_NAMES[:8], r.randint(0, 2)) if pn != mn],
+               'ret': gen_api.T(r.choice(gen_api.PRIMS)) if (i == 0 or r.random() < 0.6) else None, 'async': True}
+              for i, mn in enumerate(r.sample(gen_api.MEMBER_NAMES[8:], r.randint(1, 2)))]
+        decls.append({'kind': 'interface', 'name': name, 'ns': r.choice([[], [], ['n1'], ['n1', 'm_2']]), 'flags': flags, 'methods': ms})
+    return decls
+
+
+def history_rounds(seed, hi: int) -> list[dict]:
+    """2-3 successive configure → parse → generate rounds for ONE `API` object: every round has another (package, support types
+    package) than the round before, other identifier styles / namespaces, and a program with asynchronous methods (the same
+    program as the round before half of the time)"""
+    r = random.Random(f"{seed}/c07/hist/{hi}")
+    rounds, prev, text = [], None, None
+    for k in range(r.choice([2, 3, 3])):
+        while True:
+            where = (r.choice(JAVA_PACKAGES), r.choice(SUPPORT_PACKAGES))
+            if where != prev:
+                break
+        prev = where
+        cfg = gen_config(r, Path("out"), (hi + k) % 2)
+        cfg["generate"]["java"]["package"] = where[0]
+        cfg["generate"]["java"].pop("support_types_package", None)
+        if where[1] is not None:
+            cfg["generate"]["java"]["support_types_package"] = where[1]
+        if text is None or r.random() < 0.5:
+            g = gen_api.ProgGen(r, java_compiles=True, base_records=False, max_decls=6, async_p=0.5,
+                                names=gen_api.SAFE_NAMES + gen_api.shape_names(r, 5, avoid=gen_api.SAFE_NAMES), inline_user_types=True)
+            text = gen_api.render(with_async(g.program(), r))
+        rounds.append({"idl": text, "config": cfg})
+    return rounds
+
+
+def _round(api_object, cfg: dict, text: str, base: Path, res: dict) -> dict:
+    """one configure → parse → generate("java") round in `base` with the given `API` object (None: a fresh one), then the
+    extraction of the JNI literals / exports and of the generated Java (javac + javap; source level)"""
     try:
-        configured, g = gen_api.parse_program(cfg, text, base)
+        configured, g = gen_api.parse_program(cfg, text, base, api_object)
     except Exception as e:
         res["infra"] = f"program rejected by the front end: {type(e).__name__}: {str(e)[:300]}\n{text[:600]}"
         return res
@@ -269,8 +317,61 @@ def _worker(args):
             res["javac_error"] = (r1.stdout + r1.stderr)[:600]
     except subprocess.TimeoutExpired:
         res["javac_error"] = "timeout"
-    shutil.rmtree(base, ignore_errors=True)
     return res
+
+
+def _place(cfg: dict, base: Path) -> dict:
+    """the configuration with its output directories under `base`"""
+    gen = {k: dict(v) for k, v in cfg["generate"].items()}
+    for k in gen:
+        gen[k]["out"] = str(base / "out" / k)
+    return {"generate": gen}
+
+
+def _worker(args) -> list[dict]:
+    """one job = one program (streams `gen`, `anon`, corpus entries) or one call history on ONE `API` object (`hist`, corpus
+    entries with a `history`); returns one observation per round"""
+    kind, seed, pi, base, payload = args
+    base = Path(base)
+    if kind == "hist" or (payload is not None and "history" in payload):
+        rounds = history_rounds(seed, pi) if payload is None else [{"idl": x["idl"], "config": {"generate": x["config"]["generate"] if "generate" in x["config"] else x["config"]}}
+                                                                      for x in payload["history"]]
+        from pydjinni import API
+        api_object = API()
+        out = []
+        for k, rd in enumerate(rounds):
+            cfg = _place(rd["config"], base / f"round_{k}")
+            hist = [{"idl": x["idl"], "config": _place(x["config"], base / f"round_{j}")["generate"]} for j, x in enumerate(rounds[:k + 1])]
+            res = {"text": rd["idl"], "cfg": cfg, "stats": [], "pi": pi, "kind": kind, "round": k, "rounds": len(rounds),
+                   "replay_input": {"idl": rd["idl"], "config": cfg["generate"], "history": hist, "round": k,
+                                    "note": "the rounds of `history` are run one after the other on ONE pydjinni API object; the observation is the output of the last"}}
+            out.append(_round(api_object, cfg, rd["idl"], base / f"round_{k}", res))
+            if "infra" in res:
+                break
+        shutil.rmtree(base, ignore_errors=True)
+        return out
+    if kind == "gen":
+        r = random.Random(f"{seed}/c07/{pi}")
+        cfg = gen_config(r, base / "out", pi % 3)
+        # every second program: identifiers of all character-class shapes, inline function types over user types
+        wide = pi % 2 == 1
+        g = gen_api.ProgGen(r, java_compiles=True, base_records=False, inline_user_types=wide,
+                            names=gen_api.SAFE_NAMES + gen_api.shape_names(r, 8, avoid=gen_api.SAFE_NAMES) if wide else None)
+        text = gen_api.render(g.program())
+    elif kind == "anon":
+        # anonymous function types: their class name is computed from the spelling of the signature by two generators (Java, JNI)
+        r = random.Random(f"{seed}/c07/anon/{pi}")
+        cfg = gen_config(r, base / "out", pi % 2)
+        g = gen_api.ProgGen(r, java_compiles=True, base_records=False, names=gen_api.shape_names(r, 8), inline_user_types=True,
+                            inline_p=0.6, user_p=0.75, min_methods=2)
+        text = gen_api.render(g.program(plan=['enum', 'flags', 'record', 'record', 'interface', 'interface', 'interface']))
+    else:
+        cfg = _place({"generate": payload["config"]["generate"] if "generate" in payload["config"] else payload["config"]}, base)
+        text = payload["idl"]
+    res = {"text": text, "cfg": cfg, "stats": [], "pi": pi, "kind": kind, "round": 0, "rounds": 1}
+    _round(None, cfg, text, base, res)
+    shutil.rmtree(base, ignore_errors=True)
+    return [res]
 
 
 # --------------------------------------------------------------------------------------------------------
@@ -292,7 +393,8 @@ def decl_of_class(cls: str, model_out: list[dict]):
 
 def run(ctx):
     ctx.coverage["rule"] = ("one case = one generated declaration of a valid program (java + jni generated, Java compiled with javac and read with "
-                            "javap -s -p) ; distinct = (declaration kind, targets, member shape, configuration class) ; non-trivial = the declaration "
+                            "javap -s -p), in a fresh API object or in the 2nd/3rd configure-parse-generate round of one API object ; distinct = "
+                            "(declaration kind, targets, member shape, configuration class, first/later round) ; non-trivial = the declaration "
                             "has at least one lookup or native method")
     rows = gen_api.builtin_rows()
     c02.table_obligations(ctx, rows, C07_TABLE_CHECKS, "C07_tables")
@@ -309,17 +411,20 @@ def run(ctx):
         ctx.stats["break_examples"] = [{k: b[k] for k in ("attribute", "input", "implementation", "model")} for b in breaks[:8]]
     # ---- file level ------------------------------------------------------------------------------------------
     corpus = json.loads((common.VERIF / "corpus" / "c07.json").read_text()) if (common.VERIF / "corpus" / "c07.json").exists() else []
-    n = ctx.n(48, 600)
-    jobs = [("corpus", ctx.seed, i, str(ctx.tmp / f"corpus_{i}"), c) for i, c in enumerate(corpus)]
+    n, n_anon, n_hist = ctx.n(44, 600), ctx.n(6, 80), ctx.n(5, 60)
+    # call histories first: they are the longest jobs
+    jobs = [("hist", ctx.seed, hi, str(ctx.tmp / f"hist_{hi}"), None) for hi in range(n_hist)]
+    jobs += [("corpus", ctx.seed, i, str(ctx.tmp / f"corpus_{i}"), c) for i, c in enumerate(corpus)]
+    jobs += [("anon", ctx.seed, pi, str(ctx.tmp / f"anon_{pi}"), None) for pi in range(n_anon)]
     jobs += [("gen", ctx.seed, pi, str(ctx.tmp / f"prog_{pi}"), None) for pi in range(n)]
     t0 = time.time()
     with multiprocessing.get_context("fork").Pool(14) as pool:
-        results = pool.map(_worker, jobs, chunksize=1)
+        results = [res for job in pool.map(_worker, jobs, chunksize=1) for res in job]
     ctx.stats["t_generate_javac_javap_s"] = round(time.time() - t0, 2)
     fbreaks = evaluate(ctx, rows, results)
     ctx.stats["file_level_breaks"] = len(fbreaks)
     if fbreaks:
-        ctx.stats["file_break_examples"] = [{k: str(v)[:300] for k, v in b.items() if k not in ("idl", "config")} for b in fbreaks[:8]]
+        ctx.stats["file_break_examples"] = [{k: str(v)[:300] for k, v in b.items() if k not in ("idl", "config", "history", "note")} for b in fbreaks[:8]]
     allb = breaks + fbreaks
     if allb and not ctx.violations:
         first = allb[0]
@@ -330,6 +435,9 @@ def run(ctx):
                         "theorem domain Dom: jniClassNameIsJavaName (jni.identifier.class_name gives the Java class names, also for every type in the "
                         "member signatures) and noJavaBaseRecord are conditions outside which the real code is run and its failures are listed "
                         "findings; wf and staticOnlyOnCppInterfaces are guaranteed by the front end (C05); tables = generated obligation jniOK",
+                        "call histories: the model of round k of a history on one API object is the model of a fresh object for round k's configuration "
+                        "and program (theorem history_free: configure replaces what the generator instances hold); the check compares every round "
+                        "of the real history with it and evaluates c07.spec on that round's own glue and javap output",
                         "a lookup 'resolves' = javap -s -p (or the source-level extraction) shows the member with that name, descriptor and static-ness in "
                         "the class or a superclass; no JVM is started"]
 
@@ -345,7 +453,7 @@ def evaluate(ctx, rows, results):
             continue
         if "extract_failed" in res:
             ctx.report("jni:not-extractable", "generated JNI glue does not have the expected form: " + res["extract_failed"],
-                       {"input": {"idl": res["text"], "config": res["cfg"]["generate"]}})
+                       {"input": res.get("replay_input") or {"idl": res["text"], "config": res["cfg"]["generate"]}})
             continue
         reqs.append({"op": "c07.model", "cfg": res["lc"], "builtins": rows, "udefs": res["udefs"], "decls": res["udefs"]})
         kept.append(res)
@@ -365,7 +473,7 @@ def evaluate(ctx, rows, results):
         for a in (model, dans):
             if "error" in a:
                 raise common.Infra(f"driver error: {a['error']}\n{res['text']}")
-        inp = {"idl": res["text"], "config": res["cfg"]["generate"]}
+        inp = res.get("replay_input") or {"idl": res["text"], "config": res["cfg"]["generate"]}
         # source-level classes with descriptors
         src_classes = None
         if "java_src" in res:
@@ -412,7 +520,7 @@ def evaluate(ctx, rows, results):
         cls_members = {c["name"]: {member_key(m) for m in c["members"]} for c in classes + jdk_classes()}
         for di, (j, mo, ex) in enumerate(zip(res["udefs"], model["out"], res["jni"])):
             nontrivial = bool(mo["lookups"] or mo["exports"])
-            ctx.count(key=("decl", c02.member_shape(j), tuple(mo["dom"])), nontrivial=nontrivial,
+            ctx.count(key=("decl", c02.member_shape(j), tuple(mo["dom"])) + (("later-round",) if res.get("round") else ()), nontrivial=nontrivial,
                       sample={"declaration": j["name"], "kind": j["_kind"], "lookups": mo["lookups"][:6], "exports": mo["exports"][:3]})
             ctx.stat("decl_" + j["_kind"])
             if sorted(map(lk, mo["lookups"])) != sorted(map(lk, ex["lookups"])):
@@ -442,9 +550,10 @@ def evaluate(ctx, rows, results):
         if "error" in s:
             raise common.Infra(f"driver error: {s['error']}")
         ctx.stat("programs")
+        ctx.stat("stream_" + res["kind"] + ("_later_round" if res.get("round") else ""))
         if s["holds"]:
             continue
-        inp = {"idl": res["text"], "config": res["cfg"]["generate"]}
+        inp = res.get("replay_input") or {"idl": res["text"], "config": res["cfg"]["generate"]}
         seen = set()
         for f in s["failed"]:
             subject = f["what"].split(" ")[0]
@@ -475,8 +584,9 @@ def evaluate(ctx, rows, results):
 def replay(ctx, body):
     inp = body["input"]
     rows = gen_api.builtin_rows()
-    res = _worker(("corpus", ctx.seed, 0, str(ctx.tmp / "replay"), {"idl": inp["idl"], "config": {"generate": inp["config"]}}))
+    payload = {"history": inp["history"]} if "history" in inp else {"idl": inp["idl"], "config": {"generate": inp["config"]}}
+    res = _worker(("corpus", ctx.seed, 0, str(ctx.tmp / "replay"), payload))
     before = len(ctx.violations)
-    b = evaluate(ctx, rows, [res])
+    b = evaluate(ctx, rows, res)
     print(json.dumps({"correspondence_breaks": b[:3], "violations": ctx.violations[before:], "known": ctx.known_hits}, indent=1, default=str)[:4000])
     return len(ctx.violations) == before and not ctx.known_hits
